@@ -348,7 +348,6 @@ func (p *copyProp) Shrink(raw json.RawMessage) []json.RawMessage {
 	return out
 }
 
-
 // ---------- store construction ----------
 
 type builtStore struct {
